@@ -243,8 +243,224 @@ def _collected_comprehension(fn):
     return fn.body[:-1] + [init, loop, new_ret]
 
 
+# -- scalar replacement of a local helper object -----------------------------------------------------------------------------
+def _simple_record_class(cls):
+    """A module-level class whose instances are plain records with a few mutating methods: no bases, no decorators, an
+    __init__ and methods that touch `self` only as `self.<attr>`.  Returns {method name: FunctionDef} or None."""
+    if cls.decorator_list or cls.keywords or any(not (isinstance(b, ast.Name) and b.id == 'object') for b in cls.bases):
+        return None
+    methods = {}
+    for st in cls.body:
+        if isinstance(st, ast.FunctionDef):
+            if st.decorator_list or not st.args.args or st.args.vararg or st.args.kwarg or st.args.kwonlyargs or st.args.posonlyargs:
+                return None
+            methods[st.name] = st
+        elif isinstance(st, ast.Expr) and isinstance(st.value, ast.Constant):
+            continue
+        else:
+            return None
+    if '__init__' not in methods or any(n.startswith('__') and n != '__init__' for n in methods):
+        return None
+    for m in methods.values():
+        selfname = m.args.args[0].arg
+        for n in ast.walk(m):
+            if isinstance(n, (ast.FunctionDef, ast.AsyncFunctionDef, ast.Lambda, ast.ClassDef, ast.Yield, ast.YieldFrom, ast.Global, ast.Nonlocal)) and n is not m:
+                return None
+            if isinstance(n, ast.Return) and n.value is not None:
+                return None
+        # self only as self.<attr>
+        attr_bases = {id(n.value) for n in ast.walk(m) if isinstance(n, ast.Attribute)}
+        for n in ast.walk(m):
+            if isinstance(n, ast.Name) and n.id == selfname and id(n) not in attr_bases:
+                return None
+        # no method of self is called from inside a method
+        for n in ast.walk(m):
+            if isinstance(n, ast.Call) and isinstance(n.func, ast.Attribute) and isinstance(n.func.value, ast.Name) and n.func.value.id == selfname:
+                return None
+        # a bare `return` only as the very last statement
+        for n in ast.walk(m):
+            if isinstance(n, ast.Return) and n is not m.body[-1]:
+                return None
+    return methods
+
+
+def _init_attrs(init):
+    selfname = init.args.args[0].arg
+    out = set()
+    for n in ast.walk(init):
+        if isinstance(n, ast.Attribute) and isinstance(n.value, ast.Name) and n.value.id == selfname and isinstance(n.ctx, ast.Store):
+            out.add(n.attr)
+    return out
+
+
+def _inline_method(meth, var, call, used_names, tag):
+    """Statements of `meth` with self.<a> -> <var>__<a>, parameters bound to the call's arguments, locals renamed."""
+    import copy
+    params = [a.arg for a in meth.args.args]
+    selfname, params = params[0], params[1:]
+    defaults = dict(zip(params[len(params) - len(meth.args.defaults):], meth.args.defaults))
+    bound = {}
+    if len(call.args) > len(params) or any(isinstance(a, ast.Starred) for a in call.args):
+        return None
+    for name, a in zip(params, call.args):
+        bound[name] = a
+    for kw in call.keywords:
+        if kw.arg is None or kw.arg not in params or kw.arg in bound:
+            return None
+        bound[kw.arg] = kw.value
+    for name in params:
+        if name not in bound:
+            if name not in defaults:
+                return None
+            bound[name] = defaults[name]
+    body = [copy.deepcopy(st) for st in meth.body]
+    if body and isinstance(body[0], ast.Expr) and isinstance(body[0].value, ast.Constant) and isinstance(body[0].value.value, str):
+        body = body[1:]
+    if body and isinstance(body[-1], ast.Return):
+        body = body[:-1]
+    stored = {n.id for st in body for n in ast.walk(st) if isinstance(n, ast.Name) and isinstance(n.ctx, ast.Store)}
+    pre = []
+    subst = {}
+    for name in params:
+        a = bound[name]
+        if isinstance(a, (ast.Name, ast.Constant)) and name not in stored:
+            subst[name] = a
+        else:
+            tmp = '_{}_{}_{}'.format(var, tag, name)
+            pre.append(ast.Assign(targets=[ast.Name(id=tmp, ctx=ast.Store())], value=a, type_comment=None))
+            subst[name] = ast.Name(id=tmp, ctx=ast.Load())
+    locals_ = stored - set(params)
+
+    class T(ast.NodeTransformer):
+        def visit_Attribute(self, n):
+            if isinstance(n.value, ast.Name) and n.value.id == selfname:
+                return ast.copy_location(ast.Name(id='{}__{}'.format(var, n.attr), ctx=n.ctx), n)
+            self.generic_visit(n)
+            return n
+
+        def visit_Name(self, n):
+            if n.id in subst:
+                if isinstance(n.ctx, ast.Load):
+                    return ast.copy_location(copy.deepcopy(subst[n.id]), n)
+                return ast.copy_location(ast.Name(id=subst[n.id].id, ctx=n.ctx), n) if isinstance(subst[n.id], ast.Name) else n
+            if n.id in locals_:
+                return ast.copy_location(ast.Name(id='_{}_{}_{}'.format(var, tag, n.id), ctx=n.ctx), n)
+            return n
+    out = pre + [T().visit(st) for st in body]
+    for st in out:
+        for n in ast.walk(st):
+            if isinstance(n, (ast.stmt, ast.expr)):
+                ast.copy_location(n, call) if not hasattr(n, 'lineno') else None
+        ast.copy_location(st, call) if not hasattr(st, 'lineno') else None
+    return out or [ast.copy_location(ast.Pass(), call)]
+
+
+def _scalar_replace(fn, classes):
+    """`v = C(..)` with C a simple record class and v used only as `v.<attr>` / `v.<method>(..)` statements inside fn: the
+    object is replaced by one local per attribute and its methods are inlined (the object never escapes, so nothing else can
+    observe the difference).  Returns True when fn was rewritten."""
+    changed = False
+    for st in list(fn.body):
+        if not (isinstance(st, ast.Assign) and len(st.targets) == 1 and isinstance(st.targets[0], ast.Name) and isinstance(st.value, ast.Call)
+                and isinstance(st.value.func, ast.Name) and st.value.func.id in classes):
+            continue
+        var = st.targets[0].id
+        methods = classes[st.value.func.id]
+        attrs = _init_attrs(methods['__init__'])
+        # every other occurrence of var
+        ok = True
+        attr_bases = {}
+        for n in ast.walk(fn):
+            if isinstance(n, ast.Attribute) and isinstance(n.value, ast.Name) and n.value.id == var:
+                attr_bases[id(n.value)] = n
+        method_calls = {}       # id(Attribute) -> Call
+        for n in ast.walk(fn):
+            if isinstance(n, ast.Call) and isinstance(n.func, ast.Attribute) and id(n.func.value) in attr_bases and n.func.attr in methods and n.func.attr not in attrs:
+                method_calls[id(n.func)] = n
+        call_stmts = {}
+        for n in ast.walk(fn):
+            if isinstance(n, ast.Expr) and isinstance(n.value, ast.Call) and id(n.value.func) in method_calls:
+                call_stmts[id(n.value)] = n
+        for n in ast.walk(fn):
+            if isinstance(n, ast.Name) and n.id == var:
+                if n is st.targets[0]:
+                    continue
+                a = attr_bases.get(id(n))
+                if a is None or not isinstance(n.ctx, ast.Load):
+                    ok = False
+                elif id(a) in method_calls:
+                    if id(method_calls[id(a)]) not in call_stmts:
+                        ok = False        # the method's result is used
+                elif a.attr not in attrs:
+                    ok = False
+            if isinstance(n, (ast.FunctionDef, ast.Lambda, ast.ClassDef)) and n is not fn and any(isinstance(x, ast.Name) and x.id == var for x in ast.walk(n)):
+                ok = False                # captured by a nested scope
+            if isinstance(n, (ast.Global, ast.Nonlocal)) and var in n.names:
+                ok = False
+        names = {n.id for n in ast.walk(fn) if isinstance(n, ast.Name)} | {a.arg for a in ast.walk(fn) if isinstance(a, ast.arg)}
+        if any('{}__{}'.format(var, a) in names for a in attrs):
+            ok = False
+        if not ok:
+            continue
+        counter = [0]
+
+        class R(ast.NodeTransformer):
+            def visit_FunctionDef(self, n):
+                if n is fn:
+                    self.generic_visit(n)
+                return n
+
+            def visit_Assign(self, n):
+                if n is st:
+                    counter[0] += 1
+                    inl = _inline_method(methods['__init__'], var, n.value, names, 'init{}'.format(counter[0]))
+                    if inl is None:
+                        raise _NoSRA()
+                    return inl
+                self.generic_visit(n)
+                return n
+
+            def visit_Expr(self, n):
+                if isinstance(n.value, ast.Call) and id(n.value) in call_stmts:
+                    counter[0] += 1
+                    inl = _inline_method(methods[n.value.func.attr], var, n.value, names, '{}{}'.format(n.value.func.attr, counter[0]))
+                    if inl is None:
+                        raise _NoSRA()
+                    return inl
+                self.generic_visit(n)
+                return n
+
+            def visit_Attribute(self, n):
+                if isinstance(n.value, ast.Name) and n.value.id == var and n.attr in attrs:
+                    return ast.copy_location(ast.Name(id='{}__{}'.format(var, n.attr), ctx=n.ctx), n)
+                self.generic_visit(n)
+                return n
+        import copy
+        backup = copy.deepcopy(fn.body)
+        try:
+            R().visit(fn)
+            changed = True
+        except _NoSRA:
+            fn.body = backup
+    return changed
+
+
+class _NoSRA(Exception):
+    pass
+
+
 def normalise_tree(tree):
     tree = _Normalise().visit(tree)
+    record_classes = {}
+    for n in tree.body:
+        if isinstance(n, ast.ClassDef):
+            m = _simple_record_class(n)
+            if m is not None:
+                record_classes[n.name] = m
+    if record_classes:
+        for n in tree.body:
+            if isinstance(n, ast.FunctionDef):
+                _scalar_replace(n, record_classes)
     funcs = {n.name: n for n in tree.body if isinstance(n, ast.FunctionDef)}
     for fn in list(funcs.values()):
         new = _collected_generator(fn, funcs)
